@@ -188,6 +188,8 @@ def r_case(case, common, out):
                 q = df.repartition(partition_size=arg)
             elif what == "freq":
                 q = df.repartition(freq=arg)
+            elif what == "align":
+                return _align_case(out, df, pdf, arg, sig, replay)
             parts = [p.compute() for p in q.to_delayed()]
             whole = pd.concat(parts) if parts else pdf.iloc[:0]
         except (ValueError, NotImplementedError, TypeError) as ex:
@@ -227,6 +229,67 @@ def r_case(case, common, out):
         out["notes"][f"npartitions request not met exactly: {sig}"] = f"{q.npartitions} != {arg}"
 
 
+def _same_rows(got, want):
+    try:
+        pd.testing.assert_frame_equal(got, want, check_dtype=False, check_index_type=False)
+        return True
+    except AssertionError:
+        return False
+
+
+def _align_case(out, a, pa, arg, sig, replay):
+    """Alignment is built on repartition: a.align(b) lays both operands out on the union of their divisions.  Each
+    output holds exactly the rows pandas' align gives, in order, and every partition respects the reported divisions."""
+    import dask_expr as dx
+
+    if a.divisions[0] is None:
+        return
+    a, pa = a[["v", "w"]], pa[["v", "w"]]  # (string columns differ from pandas in dtype only: not this property's business)
+    U = list(pd.unique(pa.index))
+    nd = {"mid": [U[0], U[len(U) // 2], U[-1]], "thirds": [U[0], U[len(U) // 3], U[2 * len(U) // 3], U[-1]], "one": [U[0], U[-1]], "near-end": [U[0], U[-2], U[-1]]}[arg]
+    nd = sorted(set(nd))
+    if len(nd) < 2:
+        return
+    pb = pd.DataFrame({"w2": np.arange(len(U)) * 10.0}, index=pd.Index(U, name="ix"))
+    b = dx.from_pandas(pb, npartitions=1, sort=True).repartition(divisions=nd)
+    bump(out, "C13.R.align:rows-order-divisions", sig, rule="index dtype x input layout (incl. repeated last division) x divisions of the other operand; align() outputs and an implicitly aligning assign")
+    left, right = a.align(b, join="outer")
+    pl, pr = pa.align(pb, join="outer")
+    if tuple(left.divisions) != tuple(right.divisions):
+        viol(out, "C13.R.align:outputs-differ-in-divisions", sig, f"{left.divisions} vs {right.divisions}", replay)
+        return
+    for name, fr, want in (("left", left, pl), ("right", right, pr)):
+        try:
+            parts = [p.compute(scheduler="sync") for p in fr.to_delayed()]
+        except Exception as ex:
+            viol(out, "C13.R.align:raises", sig, f"{name}: {type(ex).__name__}: {str(ex)[:160]}", replay)
+            return
+        whole = pd.concat(parts)
+        if not _same_rows(whole, want):
+            viol(out, "C13.R.align:rows-or-order-changed", sig, f"{name}: index out {whole.index.tolist()[:14]} expected {want.index.tolist()[:14]}", replay)
+            return
+        d = fr.divisions
+        if len(parts) != len(d) - 1:
+            viol(out, "C13.R.align:divisions-not-respected", sig, f"{name}: {len(parts)} partitions under divisions {d}", replay)
+            return
+        for j, p in enumerate(parts):
+            if not len(p):
+                continue
+            last = j == len(parts) - 1
+            lo, hi = p.index.min(), p.index.max()
+            if lo < d[j] or hi > d[j + 1] or (hi == d[j + 1] and not last and list(d).count(d[j + 1]) == 1):
+                viol(out, "C13.R.align:divisions-not-respected", sig, f"{name}: partition {j} holds [{lo}, {hi}] under divisions {d[j]}..{d[j+1]}", replay)
+                return
+    try:
+        got = a.assign(y=b.w2).compute(scheduler="sync")
+    except Exception as ex:
+        viol(out, "C13.R.align:raises", sig, f"assign of a column of the other frame: {type(ex).__name__}: {str(ex)[:160]}", replay)
+        return
+    want = pa.assign(y=pb.w2)
+    if not _same_rows(got, want):
+        viol(out, "C13.R.align:rows-or-order-changed", sig, "assign of a column of the other frame differs from pandas", replay)
+
+
 def replay_r(case):
     from vf.rt.pool import _init
 
@@ -259,9 +322,11 @@ def run(run):
     run_cases(run, "vf.props.C13", "s_case", [(c, bsel) for c in chunks], {}, chunk=1)
     rc = []
     for kind in ("int", "dupint", "dupmax", "float", "str", "dt", "dt_off"):
-        for n, nin in ((24, 4), (24, 1), (25, 7), (24, (10, 4, 10)), (30, (12, 3, 15))):
+        for n, nin in ((24, 4), (24, 1), (25, 7), (9, 3), (12, 5), (24, (10, 4, 10)), (30, (12, 3, 15))):
             for req in (("npartitions", 2), ("npartitions", 1), ("npartitions", 9), ("npartitions", 4), ("divisions", "coarser"), ("divisions", "finer"), ("divisions", "shifted"), ("divisions", "repeat-last"), ("divisions", "same"), ("force", None), ("partition_size", "0.3kB"), ("partition_size", "1kB")):
                 rc.append((kind, n, nin, req))
+            for arg in ("mid", "thirds", "one", "near-end"):
+                rc.append((kind, n, nin, ("align", arg)))
             if kind in ("dt", "dt_off"):
                 rc.append((kind, n, nin, ("freq", "1D")))
                 rc.append((kind, n, nin, ("freq", "2D")))
